@@ -138,7 +138,10 @@ fn deserialize_types(text: &str) -> Result<HashSet<RepositoryType>, RepositoryEr
 }
 
 fn serialize_types(files: &HashSet<RepositoryType>) -> String {
-    files.into_iter().map(|rt| rt.to_string()).collect::<Vec<String>>().join("\n")
+    // in a fixed order: the iteration order of a HashSet differs from one set to the next
+    let mut types = files.into_iter().map(|rt| rt.to_string()).collect::<Vec<String>>();
+    types.sort();
+    types.join("\n")
 }
 
 fn deserialize_uris(text: &str) -> Result<Vec<Url>, String> { // TODO: bad error type
